@@ -6,7 +6,7 @@ import os
 import random
 import time
 
-from . import common, gen, queryfam, c10, worldfam, c18, c09, c15
+from . import common, gen, queryfam, c10, worldfam, c18, c09, c15, c16
 
 TRUSTED_BASE = [
     "Lean 4.33.0 kernel (axioms limited to propext, Classical.choice, Quot.sound; audited per theorem on every run)",
@@ -377,6 +377,17 @@ REGISTRY = {
                 "per connection, the peer bookkeeping after the session and the next update tick (immediate refresh); non-trivial = at least two commands",
         "correspondence": "Lmd.sessionEvents / processBatch / peerSend / sendCommands vs parseRequestsFromReader / processRequests / SendCommandsWithRetry / SendCommands / Peer.query",
         "assumptions": ["a sender that waits for a peer in warning/pending state sleeps in real time; such scenarios run in the thorough tier only", "the client closes its write side after the last request"],
+    },
+    "C16": {
+        "lean_modules": ["C16"],
+        "run": c16.run,
+        "rule": "worlds of 1-3 real peers (up / down / warning / answering log queries with error500, garbage, closing early, bad JSON, truncated) wired to scripted backends holding 0-6 log rows each; "
+                "12-16 generated GET log requests per world: column lists mixing backend columns, peer_key / peer_name, duplicates and unknown columns in any order, 0-3 Sort keys inside or outside the column list "
+                "(numeric, string, LMD-side, list typed), Limit, Offset, filters, Stats counters and sum/min/max/avg with and without group-by columns, Backends headers incl. unknown ids, json / wrapped_json; "
+                "compared: which backends were asked, the text of the sub-request each received, rows / order / window / total_count / failed map / Stats values against Lmd.ptData / ptStats fed with the replies the backends really gave",
+        "correspondence": "Lmd.ptPlan / subRequest / spliceRow / ptData / ptStats vs BuildPassThroughResult / PassThroughQuery / PostProcessing / Less / CalculateFinalStats",
+        "assumptions": ["the backend evaluates the forwarded filter and Stats itself (its replies are data of the step)", "Filter / Stats on LMD-side columns are forwarded verbatim and not generated",
+                        "group-by keys are strings and small integers (Go's %v float formatting beyond 1e6 is not modelled)"],
     },
     "C09": {
         "lean_modules": ["C09"],
